@@ -580,7 +580,14 @@ impl Exec {
         if self.cfg.workers > 0 || !self.auto_pump {
             return Ok(());
         }
-        let hs: Vec<Keyspace> = self.handles.values().cloned().collect();
+        // every live keyspace, not only those a handle is currently held for (after a reopen none is held yet)
+        let kss: Vec<u8> = self.model.ks.keys().copied().collect();
+        let mut hs: Vec<Keyspace> = Vec::new();
+        for ks in kss {
+            if let Ok(h) = self.handle(ks) {
+                hs.push(h);
+            }
+        }
         for h in hs {
             let mut guard = 0;
             while h.tree.sealed_memtable_count() >= 3 || h.tree.l0_run_count() >= 12 {
@@ -606,6 +613,10 @@ impl Exec {
     }
 
     pub fn apply(&mut self, idx: usize, op: &Op) -> R<()> {
+        if std::env::var("FJV_TRACE").is_ok() {
+            let sealed: Vec<(u8, usize, usize)> = self.handles.iter().map(|(k, h)| (*k, h.tree.sealed_memtable_count(), h.tree.l0_run_count())).collect();
+            eprintln!("op {idx}: {} | (ks, sealed, l0 runs) = {sealed:?} pending={}", op.to_line().chars().take(100).collect::<String>(), if self.is_open() { self.db().verif_pending_work() } else { 0 });
+        }
         self.emit_mark(&format!("S {idx}"));
         let seq_before = if self.filtered && op.is_write() && self.is_open() {
             Some(self.db().seqno())
@@ -643,7 +654,9 @@ impl Exec {
             self.forget_filtered(op);
         }
         self.stats.inc(&format!("op.{}", op.kind()));
-        if op.is_write() || matches!(op, Op::Rotate { .. }) {
+        // (after a reopen too: recovery can hand back four or more sealed memtables, and without worker threads the
+        // next write into that keyspace would wait in the - correct - back-pressure loop forever)
+        if op.is_write() || matches!(op, Op::Rotate { .. } | Op::Reopen { .. }) {
             self.pump()?;
         }
         Ok(())
